@@ -20,6 +20,9 @@
 //!   (many <n> <conns>)  n clients call Start (over <conns> connections, client i on connection i mod conns),
 //!        then all of them go through the canonical sequence in lock step: round k = every client's
 //!        step k, client 0 first.  All n clients are between Start and End at the same time.
+//!   (churn <n> <rounds>)  n threads, each running <rounds> complete canonical sequences Start..End back to
+//!        back on its own connection, all at full speed (Starts and Ends of different clients overlap all
+//!        the time); every request has a 10 s deadline (30 s elsewhere)
 //!   (conc <n>)         n threads, each a canonical client on its own connection, all at once
 //!   (realclient <n>)   n processes `varlink-certification --client` against the server, all at once
 //!
@@ -30,6 +33,8 @@
 //!   many:       (obs (step <pos> (<count> <first client index> <r>)*)*)   pos 0 = Start; per step the distinct
 //!               outcomes (the client's own id printed as "@cid"), how many clients got each, and the first
 //!               client that got it, ordered by that index
+//!   churn:      (obs (seqs <completed sequences>) (first-failure - | (<thread> <sequence> <pos> <kind>)))
+//!               kind = timeout | closed | error | missing-reply
 //!   conc:       (obs (client (r ...)*)*)           in thread order, thread c's id printed as "@cidc"
 //!   realclient: (obs (exit <code>)*)
 //! The text of an InvalidParameter reply produced from a serde error is printed as "*".
@@ -151,7 +156,7 @@ struct Conn {
 
 fn connect(path: &str) -> Option<Conn> {
     let s = UnixStream::connect(path).ok()?;
-    s.set_read_timeout(Some(Duration::from_secs(10))).ok()?;
+    s.set_read_timeout(Some(Duration::from_secs(30))).ok()?;
     s.set_write_timeout(Some(Duration::from_secs(10))).ok()?;
     Some(Conn { s, buf: Vec::new() })
 }
@@ -1191,7 +1196,8 @@ impl Suite for CertSuite {
             ("no-dot", sx::tagged("o", vec![sx::list(vec![sx::xs("method"), jstr("Start")])])),
             ("request-as-array", sx::tagged("a", vec![sx::atom("n"), sx::atom("n"), sx::atom("n"), jstr("org.varlink.certification.Start"), sx::atom("n")])),
         ] {
-            let class = if kind == "request-as-array" { "same" } else { "dev" };
+            // (since ce5196b the service takes JSON objects only: the array form of a request is refused)
+            let class = "dev";
             let qs = vec![q(0, class, tree), canon_q(0, 0, 0), canon_q(0, 1, 0)];
             out.push(case(qs, vec!["frames".into(), format!("mut:{}", kind)]));
         }
@@ -1216,6 +1222,16 @@ impl Suite for CertSuite {
                 qs.push(canon_q(0, p, 0));
             }
             out.push(case(qs, vec!["real-time-pause".into(), "class:canon".into()]));
+        }
+
+        // M. churn: many clients running complete sequences back to back, so that the Start of one overlaps
+        //    the End of another all the time; every request must be answered within its deadline
+        let churn: &[(usize, usize)] = if ctx.thorough { &[(8, 1000), (12, 1000), (16, 1000)] } else { &[(16, 150), (8, 150)] };
+        for (n, rounds) in churn {
+            out.push(Case {
+                input: sx::tagged("churn", vec![sx::nat(*n), sx::nat(*rounds)]),
+                tags: vec!["churn".into(), format!("clients:{}", n)],
+            });
         }
 
         // K. many clients in flight at once: the table has no capacity, nobody is dropped before End
@@ -1413,6 +1429,67 @@ impl Suite for CertSuite {
                     steps.push(sx::list(st));
                 }
                 sx::tagged("obs", steps)
+            }
+            "churn" => {
+                let n = l[1].as_usize().expect("n");
+                let rounds = l[2].as_usize().expect("rounds");
+                let path = server_path();
+                let barrier = std::sync::Arc::new(std::sync::Barrier::new(n));
+                let hs: Vec<_> = (0..n)
+                    .map(|t| {
+                        let path = path.clone();
+                        let barrier = barrier.clone();
+                        std::thread::spawn(move || -> (usize, Option<(usize, usize, usize, &'static str)>) {
+                            let open = |path: &str| -> Option<Conn> {
+                                let c = connect(path)?;
+                                c.s.set_read_timeout(Some(Duration::from_secs(10))).ok()?;
+                                Some(c)
+                            };
+                            let mut conn = match open(&path) {
+                                Some(c) => c,
+                                None => return (0, Some((t, 0, 0, "closed"))),
+                            };
+                            barrier.wait();
+                            let mut done = 0;
+                            for seq in 0..rounds {
+                                let mut cid = String::new();
+                                for pos in 0..STEPS.len() {
+                                    let text = serde_json::to_string(&canon_request(pos, &cid)).unwrap();
+                                    let (replies, end) = exchange(&mut conn, text.as_bytes(), pos);
+                                    let kind = match end {
+                                        End::Timeout => Some("timeout"),
+                                        End::Closed => Some("closed"),
+                                        End::Open => {
+                                            if replies.iter().any(|r| r.get("error").is_some()) {
+                                                Some("error")
+                                            } else if (pos == 11) != replies.is_empty() {
+                                                Some("missing-reply")
+                                            } else {
+                                                None
+                                            }
+                                        }
+                                    };
+                                    if let Some(kind) = kind {
+                                        return (done, Some((t, seq, pos, kind)));
+                                    }
+                                    if pos == 0 {
+                                        cid = new_id_of(&replies).unwrap_or_default();
+                                    }
+                                }
+                                done += 1;
+                            }
+                            (done, None)
+                        })
+                    })
+                    .collect();
+                let rs: Vec<_> = hs.into_iter().map(|h| h.join().unwrap_or((0, Some((0, 0, 0, "closed"))))).collect();
+                let total: usize = rs.iter().map(|r| r.0).sum();
+                let first = rs.iter().filter_map(|r| r.1).min_by_key(|f| (f.1, f.2, f.0));
+                let ff = match first {
+                    None => sx::atom("-"),
+                    Some((t, seq, pos, kind)) => sx::list(vec![sx::nat(t), sx::nat(seq), sx::nat(pos), sx::atom(kind)]),
+                };
+                sx::tagged("obs", vec![sx::tagged("seqs", vec![sx::nat(total)]), sx::tagged("first-failure", vec![ff])])
             }
             "realclient" => {
                 let n = l[1].as_usize().expect("n");
